@@ -130,13 +130,23 @@ Definition C19_split_full : Prop :=
    no chunk).  The union clause is exact for the three other flag combinations; for the
    both-exclusive combination it is exact up to the inner boundaries.  No no-wrap guard is
    needed after the Split fix: every 64-bit range and every chunk size 1..2^64-1 is covered. *)
-Definition C19_split : Prop :=
+Definition C19_split_partial : Prop :=
   forall r chunk, range_ok r -> 0 < chunk < two64 ->
     match rend r with
     | None => split r chunk = SplitErrOpen
     | Some _ => exists l, split r chunk = SplitOk l /\ chunks_shape r chunk l /\
                   forall n, (exists c, In c l /\ in_range c n) <->
                             in_range r n /\ ~ (rexs r = true /\ rexe r = true /\ In n (inner_bounds l))
+    end.
+
+(* corollary of C19_split_partial: the full statement for the three flag combinations with at
+   most one exclusive bound *)
+Definition C19_split_exact : Prop :=
+  forall r chunk, range_ok r -> 0 < chunk < two64 -> rexs r && rexe r = false ->
+    match rend r with
+    | None => split r chunk = SplitErrOpen
+    | Some _ => exists l, split r chunk = SplitOk l /\ chunks_shape r chunk l /\
+                  forall n, (exists c, In c l /\ in_range c n) <-> in_range r n
     end.
 
 (* the refutation of the full statement, on the model and (replayed) on the real code *)
